@@ -152,6 +152,21 @@ func MonC05() *Mon {
 					bad("stale-timing", "first timer is (%d,%d,%s), want (%d,0,%s): this instance never was at height %d, nothing may adjust it", t.H, t.V, t.D0, h, want, h-1)
 				}
 			}
+			// ... and when the change views received early for this height carried the node beyond view 0 inside the call,
+			// the timer it is left with is the one of the role it has in the view it ended up in (a backup of view v waits
+			// TimePerBlock << (v+1), a primary that is not recovering one block time) - not of the role it had in view 0
+			// (seeded change C05m: role evaluated once before the cached payloads are replayed)
+			if n.Active() && d.ViewNumber > 0 && d.ViewNumber < 20 && !d.BlockSent() && h > 0 && !visited[n][h-1] && n.Timer.Resets > c.PreTimer.Resets {
+				tpb, _ := n.BlockTimes()
+				exp := tpb << (uint(d.ViewNumber) + 1)
+				if d.IsPrimary() && !d.VerifFlags().Recovering {
+					exp = tpb
+				}
+				w.Stat("c05_first_timer_checked_after_nested_view_change")
+				if t := n.Timer; t.H != h || t.V != d.ViewNumber || t.D0 != exp {
+					bad("stale-role-timing", "entered view %d inside the call (primary=%v); timer is (%d,%d,%s), want (%d,%d,%s): this instance never was at height %d, nothing may adjust it", d.ViewNumber, d.IsPrimary(), t.H, t.V, t.D0, h, d.ViewNumber, exp, h-1)
+				}
+			}
 			N := len(want)
 			M := refM(N)
 			if d.ViewNumber != 0 {
